@@ -20,7 +20,9 @@ import hashlib
 import json
 import multiprocessing
 import os
+import pickle
 import shutil
+import signal
 import subprocess
 import sys
 import tempfile
@@ -97,6 +99,7 @@ class UnitOutcome:
         self.steps = 0
         self.samples = []
         self.violations = []        # dicts: params, choices, cls, key, msg
+        self.native_crashes = []    # (run index, signal) of units whose worker was killed by a native crash
         self.sets = collections.defaultdict(set)   # named distinct-measure sets
 
     def add(self, params, res):
@@ -145,12 +148,18 @@ def get_engine(name):
 
 
 def _work(engine_name, verif_seed, chunk):
-    faulthandler.enable()                      # a crash of native code (FITPACK, ...) leaves a Python traceback
-    faulthandler.dump_traceback_later(1800, exit=True)
+    try:
+        faulthandler.enable()                  # a crash of native code (FITPACK, ...) leaves a Python traceback
+        faulthandler.dump_traceback_later(1800, exit=True)
+    except Exception:                          # stderr without a file descriptor (captured): go without
+        pass
     try:
         eng = get_engine(engine_name)
         out = UnitOutcome()
+        crash_at = os.environ.get("VERIF_TEST_CRASH_INDEX")
         for index, params in chunk:
+            if crash_at is not None and index == int(crash_at):
+                os.kill(os.getpid(), signal.SIGSEGV)      # self-test of the native-crash isolation
             seed = S.run_seed(verif_seed, engine_name, index)
             uo = eng.run_unit(params, seed)
             for v in uo.violations:
@@ -158,7 +167,10 @@ def _work(engine_name, verif_seed, chunk):
             out.merge(uo)
         return out
     finally:
-        faulthandler.cancel_dump_traceback_later()
+        try:
+            faulthandler.cancel_dump_traceback_later()
+        except Exception:
+            pass
 
 
 def load_known():
@@ -235,44 +247,99 @@ def _confirm_fresh(path):
     return p.returncode == EXIT_VIOLATION, p.stdout + p.stderr
 
 
+def _child(engine_name, verif_seed, chunk, out_path):
+    """Body of one forked worker: run a chunk, leave the pickled outcome (or the traceback) in out_path."""
+    code = 0
+    try:
+        out = _work(engine_name, verif_seed, chunk)
+        with open(out_path + ".tmp", "wb") as f:
+            pickle.dump(("ok", out), f, protocol=pickle.HIGHEST_PROTOCOL)
+    except BaseException:          # noqa: B036 - reported to the parent, which turns it into HARNESS-ERROR
+        code = 3
+        with open(out_path + ".tmp", "wb") as f:
+            pickle.dump(("error", traceback.format_exc()), f)
+    os.replace(out_path + ".tmp", out_path)
+    sys.stdout.flush()
+    sys.stderr.flush()
+    os._exit(code)
+
+
 def run_batch(engine_name, verif_seed, units, workers, known=(), prop=None, deadline=None, t0=None):
-    """Execute `units` (list of params; index = run index) on `workers` forked workers; merge by chunk index.
-    The merged outcome is independent of the worker count."""
+    """Execute `units` (list of params; index = run index) on `workers` forked children, one chunk per child, and merge
+    by chunk index, so the merged outcome is independent of the worker count.  A child killed by a signal (a crash of
+    native third-party code such as FITPACK) does not take the batch down: its chunk is split and re-run until the
+    crashing unit is isolated; that unit is skipped and counted (`native-crash`), never reported as a violation -
+    a crash that depends on the heap layout cannot be replayed."""
     t0 = t0 or time.monotonic()
     indexed = list(enumerate(units))
     nchunks = max(1, min(len(indexed), 128))
-    chunks = [indexed[i::nchunks] for i in range(nchunks)]
+    chunks = [(str(i), indexed[i::nchunks]) for i in range(nchunks)]
     total = UnitOutcome()
     stopped_early = False
-    if workers == 1:
-        for ch in chunks:
+    if workers == 1 and os.environ.get("VERIF_INPROCESS"):
+        for _, ch in chunks:
             total.merge(_work(engine_name, verif_seed, ch))
             if any(not _is_known(known, prop, v) for v in total.violations):
                 stopped_early = True
                 break
         return total, stopped_early
-    ctx = multiprocessing.get_context("fork")
-    with ProcessPoolExecutor(max_workers=workers, mp_context=ctx) as ex:
-        futs = {ex.submit(_work, engine_name, verif_seed, ch): i for i, ch in enumerate(chunks)}
-        done = {}
-        for fut in as_completed(futs):
-            done[futs[fut]] = fut.result()
-            unknown = any(not _is_known(known, prop, v) for v in done[futs[fut]].violations)
+    root = scratch_root()
+    pending = collections.deque(chunks)
+    running = {}            # pid -> (key, chunk, out_path)
+    done = {}
+    crashed_units = []
+    harness_error = None
+    try:
+        while (pending or running) and harness_error is None:
+            while pending and len(running) < workers and not stopped_early:
+                key, ch = pending.popleft()
+                out_path = os.path.join(root, f"res-{key}.pkl")
+                sys.stdout.flush()
+                sys.stderr.flush()
+                pid = os.fork()
+                if pid == 0:
+                    _child(engine_name, verif_seed, ch, out_path)
+                running[pid] = (key, ch, out_path)
+            if not running:
+                break
+            pid, status = os.wait()
+            if pid not in running:
+                continue
+            key, ch, out_path = running.pop(pid)
+            if os.WIFSIGNALED(status) or not os.path.exists(out_path):
+                if len(ch) > 1:             # isolate the crashing unit
+                    h = len(ch) // 2
+                    pending.appendleft((key + "b", ch[h:]))
+                    pending.appendleft((key + "a", ch[:h]))
+                else:
+                    crashed_units.append((ch[0][0], os.WTERMSIG(status) if os.WIFSIGNALED(status) else -1))
+                continue
+            with open(out_path, "rb") as f:
+                kind, payload = pickle.load(f)
+            os.remove(out_path)
+            if kind == "error":
+                harness_error = payload
+                break
+            done[key] = payload
+            unknown = any(not _is_known(known, prop, v) for v in payload.violations)
             over = deadline is not None and time.monotonic() - t0 > deadline
             if unknown or over:
                 stopped_early = True
-                for f2 in futs:
-                    f2.cancel()
-                break
-        if stopped_early:
-            for f2, i in futs.items():
-                if i not in done and f2.done() and not f2.cancelled():
-                    try:
-                        done[i] = f2.result()
-                    except Exception:
-                        pass
-        for i in sorted(done):
-            total.merge(done[i])
+                pending.clear()
+    finally:
+        for pid in list(running):
+            try:
+                os.kill(pid, signal.SIGKILL)
+                os.waitpid(pid, 0)
+            except OSError:
+                pass
+    if harness_error is not None:
+        raise HarnessError("worker failed:\n" + harness_error)
+    for key in sorted(done, key=lambda k: (int("".join(c for c in k if c.isdigit())), k)):
+        total.merge(done[key])
+    if crashed_units:
+        total.stats["native-crash:units-skipped"] += len(crashed_units)
+        total.native_crashes = sorted(crashed_units)
     return total, stopped_early
 
 
@@ -366,6 +433,7 @@ def write_evidence(eng, engine_name, tier, verif_seed, total, wall, wall_search,
         "distinct_measures": {k: len(s) for k, s in sorted(total.sets.items())},
         "components": d.get("components", {}),
         "known_findings_hit": [f"{k.get('class')} {k.get('key')}" for k in known_hits],
+        "native_crashes_skipped": [{"run_index": i, "signal": sg} for i, sg in getattr(total, "native_crashes", [])],
     }
     cov.update(d.get("extra", {}))
     if hasattr(eng, "probe_warnings"):
